@@ -171,6 +171,30 @@ example : emitCoord (storeCoord (p + 5)) = be32 5 := by
   have := (limb_level_roundtrip (p + 5) (by decide)).2.2.1
   rw [this]; congr 1
 
+/-- **decoding does not depend on the receiver.**  `UnmarshalBinary`/`UnmarshalFrom` are methods of a
+point object with prior state (fresh, `Null()`, `Base()`, a `Mul` result, an earlier successful or
+FAILED decode); the model's decoders take that state as an argument and ignore it, so any sequence of
+decodes through one reused receiver answers, step by step, as fresh decodes of the same bytes — in
+particular `[P, identity, Q]` gives `P, O, Q`.  True by construction of the model; the `seq` and
+`into` correspondence cases (every special encoding × every prior state, both APIs) make it a check of
+the code: they catch a decoder that leaves `z`, `t` or limbs of the old value behind. -/
+theorem unmarshal_ignores_receiver :
+    (∀ (r1 r2 : G1) buf, unmarshalG1Into r1 buf = unmarshalG1Into r2 buf ∧ unmarshalG1Into r1 buf = unmarshalG1 buf) ∧
+    (∀ (r1 r2 : G2) buf, unmarshalG2Into r1 buf = unmarshalG2Into r2 buf ∧ unmarshalG2Into r1 buf = unmarshalG2 buf) ∧
+    (∀ (r1 r2 : GT) buf, unmarshalGTInto r1 buf = unmarshalGTInto r2 buf ∧ unmarshalGTInto r1 buf = unmarshalGT buf) ∧
+    (∀ junk recv bufs, decodeSeq unmarshalG1Into junk recv bufs = bufs.map unmarshalG1) ∧
+    (∀ junk recv bufs, decodeSeq unmarshalG2Into junk recv bufs = bufs.map unmarshalG2) ∧
+    (∀ junk recv bufs, decodeSeq unmarshalGTInto junk recv bufs = bufs.map unmarshalGT) := by
+  refine ⟨fun _ _ _ => ⟨rfl, rfl⟩, fun _ _ _ => ⟨rfl, rfl⟩, fun _ _ _ => ⟨rfl, rfl⟩, ?_, ?_, ?_⟩ <;>
+  · intro junk recv bufs
+    induction bufs generalizing recv with
+    | nil => rfl
+    | cons b bs ih => simp only [decodeSeq, List.map_cons, ih]; rfl
+
+example : decodeSeq unmarshalG1Into (fun _ => g1gen) (G1.neg g1gen)
+    [marshalG1 g1gen, marshalG1 .inf, [1], marshalG1 g1gen] =
+    [.ok g1gen, .ok .inf, .err .short, .ok g1gen] := by decide +kernel
+
 /-! ## 2. fixed lengths -/
 
 /-- every G1 element (identity included) encodes to 64 bytes -/
